@@ -739,17 +739,24 @@ impl Stringify for Value {
                             right,
                             location,
                         } => {
-                            let split = if let Expression::ToStringWithoutUndefined { .. }
-                            | Expression::LitStr { .. } = &**left
-                            {
-                                true
-                            } else if let Expression::ToStringWithoutUndefined { .. }
-                            | Expression::LitStr { .. } = &**right
-                            {
-                                true
-                            } else {
-                                false
-                            };
+                            // only the concatenations built by the parser for mixed text
+                            // (`a{{b}}c`) are printed as text pieces; they always carry a
+                            // `ToStringWithoutUndefined` operand, which users cannot write
+                            fn is_mixed_text(expr: &Expression) -> bool {
+                                match expr {
+                                    Expression::Plus { left, right, .. } => {
+                                        matches!(
+                                            &**left,
+                                            Expression::ToStringWithoutUndefined { .. }
+                                        ) || matches!(
+                                            &**right,
+                                            Expression::ToStringWithoutUndefined { .. }
+                                        ) || is_mixed_text(left)
+                                    }
+                                    _ => false,
+                                }
+                            }
+                            let split = is_mixed_text(expr);
                             if split {
                                 split_expression(&left, stringifier, start_location, location)?;
                                 split_expression(&right, stringifier, location, end_location)?;
